@@ -68,8 +68,47 @@ def first_difference(a, b, path=""):
 # ---------------------------------------------------------------------------------------------
 # Abstraction of a real document into the shape of Den.tla's denotation (C02)
 
-def sch(t, n="", fl=0, kids=()):
-    return {"t": t, "n": n, "fl": fl, "kids": list(kids)}
+def sch(t, n="", fl=0, kids=(), an=()):
+    return {"t": t, "n": n, "fl": fl, "kids": list(kids), "an": sorted(list(x) for x in an)}
+
+
+NUMERIC = ("minimum", "maximum", "multipleOf", "minLength", "maxLength")
+ANN_KEYS = ("description", "title", "minimum", "maximum", "multipleOf", "pattern", "enum", "format", "example", "minLength", "maxLength")
+
+
+def canon_ann(key, val):
+    """annotation values as canonical strings (numbers by value, lists comma separated)"""
+    if isinstance(val, bool):
+        return "true" if val else "false"
+    if isinstance(val, (int, float)):
+        return "%g" % float(val)
+    if isinstance(val, list):
+        return ",".join(str(x) for x in val)
+    v = str(val)
+    if key in NUMERIC or (key == "example" and _is_number(v)):
+        try:
+            return "%g" % float(v)
+        except ValueError:
+            return v
+    return v
+
+
+def _is_number(v):
+    try:
+        float(v)
+        return True
+    except ValueError:
+        return False
+
+
+def real_ann(s):
+    out = []
+    for k in ANN_KEYS:
+        if k in s and s[k] not in (None, [], ""):
+            if k == "format" and s[k] == "uri-reference":
+                continue
+            out.append((k, canon_ann(k, s[k])))
+    return out
 
 
 CUT = sch("...")
@@ -93,18 +132,21 @@ def abstract_schema(s, comps, K, d=0, hops=0):
         return CUT if d >= K else abstract_schema(x, comps, K, d + 1, 0)
     for key, t in (("allOf", "allOf"), ("anyOf", "anyOf"), ("oneOf", "oneOf")):
         if key in s:
-            return sch(t, kids=[edge(x) for x in s[key]])
+            return sch(t, kids=[edge(x) for x in s[key]], an=real_ann(s))
     ty = s.get("type")
     if ty == "object":
         req = set(s.get("required") or [])
         # the harness hands the document over as JSON with sorted keys: properties are compared as a set
-        return sch("object", kids=[sch("prop", k, 1 if k in req else 0, [edge(v)]) for k, v in sorted((s.get("properties") or {}).items())])
+        return sch("object", kids=[sch("prop", k, 1 if k in req else 0, [edge(v)]) for k, v in sorted((s.get("properties") or {}).items())], an=real_ann(s))
     if ty == "array":
-        return sch("array", kids=[edge(s.get("items"))])
+        return sch("array", kids=[edge(s.get("items"))], an=real_ann(s))
     if ty == "string":
-        return sch("uri" if s.get("format") == "uri-reference" else "string")
+        if s.get("format") == "uri-reference":
+            # the emitter gives every URI schema an example built from its template: not an annotation
+            return sch("uri", an=[kv for kv in real_ann(s) if kv[0] != "example"])
+        return sch("string", an=real_ann(s))
     if ty in ("number", "boolean", "integer"):
-        return sch(ty)
+        return sch(ty, an=real_ann(s))
     return sch("UNKNOWN", json.dumps(s)[:40])
 
 
@@ -114,18 +156,22 @@ def abstract_doc(doc, K):
     for key, item in (doc.get("paths") or {}).items():
         def params(ps, where):
             # parameters and headers are properties of an object in the source: their schemas sit one level deep
-            return [(p.get("name"), bool(p.get("required", False)), abstract_schema(p.get("schema"), comps, K, 1)) for p in (ps or []) if p.get("in") == where]
+            return [(p.get("name"), bool(p.get("required", False)), abstract_schema(p.get("schema"), comps, K, 1), p.get("description") or "") for p in (ps or []) if p.get("in") == where]
         it = {"pattern": key, "path_params": params(item.get("parameters"), "path"), "query": params(item.get("parameters"), "query"), "ops": {}}
         for m in ("get", "put", "post", "patch", "delete", "options", "head"):
             op = item.get(m)
             if op is None:
                 continue
-            o = {"query": params(op.get("parameters"), "query"), "headers": params(op.get("parameters"), "header"), "request": None, "responses": []}
+            o = {"query": params(op.get("parameters"), "query"), "headers": params(op.get("parameters"), "header"), "request": None, "responses": [],
+                 "summary": op.get("summary") or "", "description": op.get("description") or "", "operationId": op.get("operationId") or "",
+                 "tags": list(op.get("tags") or []), "request_desc": ((op.get("requestBody") or {}).get("description") or ""), "resp_desc": {}}
             rb = op.get("requestBody")
             if rb:
                 o["request"] = sorted((md, abstract_schema((c or {}).get("schema"), comps, K)) for md, c in (rb.get("content") or {}).items())
             for rk, resp in (op.get("responses") or {}).items():
-                hdrs = [(hn, bool((h or {}).get("required", False)), abstract_schema((h or {}).get("schema"), comps, K, 1)) for hn, h in (resp.get("headers") or {}).items()]
+                hdrs = [(hn, bool((h or {}).get("required", False)), abstract_schema((h or {}).get("schema"), comps, K, 1), (h or {}).get("description") or "")
+                        for hn, h in (resp.get("headers") or {}).items()]
+                o["resp_desc"][str(rk)] = resp.get("description") or ""
                 cont = resp.get("content") or {}
                 if cont:
                     for md, c in cont.items():
@@ -146,7 +192,18 @@ def norm_sch(s):
     kids = [norm_sch(k) for k in s["kids"]]
     if s["t"] == "object":
         kids.sort(key=lambda k: k["n"])
-    return sch(s["t"], n, s["fl"], kids)
+    # annotations: a property inside an object has no place for its own description in the document; `required` is
+    # reflected in the flag; a reference carries none
+    an = [] if s["t"] in ("prop", "ref", "...") else [(e["key"], canon_ann(e["key"], e["val"])) for e in s.get("an", [])
+                                                       if e["key"] != "required" and not (s["t"] == "uri" and e["key"] == "example")]
+    return sch(s["t"], n, s["fl"], kids, an)
+
+
+def prop_desc(p):
+    for e in p.get("an", []):
+        if e["key"] == "description":
+            return e["val"]
+    return ""
 
 
 def expected_doc(case):
@@ -157,19 +214,24 @@ def expected_doc(case):
         pattern = "".join("/" + (s["n"] if s["k"] == "lit" else "{%s}" % s["n"]) for s in segs) or "/"
 
         def props(ps):
-            return [(p["n"], p["fl"] == 1, norm_sch(p["kids"][0])) for p in ps]
-        it = {"pattern": pattern, "path_params": [(s["n"], True, norm_sch(s["s"])) for s in segs if s["k"] == "var"], "query": props(pi["query"]), "ops": {}}
+            return [(p["n"], p["fl"] == 1, norm_sch(p["kids"][0]), prop_desc(p)) for p in ps]
+        it = {"pattern": pattern, "path_params": [(s["n"], True, norm_sch(s["s"]), s.get("d", "")) for s in segs if s["k"] == "var"], "query": props(pi["query"]), "ops": {}}
         for x in pi["xfers"]:
             for m in x["methods"].split(","):
-                o = {"query": props(x["params"]), "headers": [], "request": None, "responses": []}
+                o = {"query": props(x["params"]), "headers": [], "request": None, "responses": [],
+                     "summary": x.get("summary", ""), "description": x.get("desc", ""), "operationId": x.get("id", ""),
+                     "tags": [t for t in x.get("tags", "").split(",") if t], "request_desc": "", "resp_desc": {}}
                 if x["domain"]:
                     dm = x["domain"][0]
+                    o["request_desc"] = dm.get("desc", "")
                     o["headers"] = props(dm["headers"])
                     if dm["body"]:
                         o["request"] = [(dm["media"] or "application/json", norm_sch(dm["body"][0]))]
                 for c in x["ranges"]:
                     key = c["status"] or "default"
                     hd = props(c["headers"])
+                    if c.get("desc"):
+                        o["resp_desc"][key] = c["desc"]          # the last content of a status that has a description
                     if c["body"]:
                         o["responses"].append((key, c["media"] or "application/json", norm_sch(c["body"][0]), hd))
                     else:
@@ -178,6 +240,40 @@ def expected_doc(case):
         items.append(it)
     comps = {c["name"].lstrip("@"): norm_sch(c["schema"]) for c in case["comps"]}
     return {"paths": items, "comps": comps}
+
+
+def strip_an(x):
+    if isinstance(x, dict):
+        return {k: strip_an(v) for k, v in x.items() if k != "an"}
+    if isinstance(x, (list, tuple)):
+        return [strip_an(v) for v in x]
+    return x
+
+
+def ann_keys_differing(a, b):
+    """keys of the annotations that differ between two abstract schemas of the same structure"""
+    out = set()
+
+    def go(x, y):
+        if isinstance(x, dict) and isinstance(y, dict):
+            ax, ay = dict(map(tuple, x.get("an", []))), dict(map(tuple, y.get("an", [])))
+            for k in set(ax) | set(ay):
+                if ax.get(k) != ay.get(k):
+                    out.add(k)
+            for u, v in zip(x.get("kids", []), y.get("kids", [])):
+                go(u, v)
+        elif isinstance(x, (list, tuple)) and isinstance(y, (list, tuple)):
+            for u, v in zip(x, y):
+                go(u, v)
+    go(a, b)
+    return sorted(out)
+
+
+def differ(kind, a, b):
+    """the kind of a difference between two abstract values: structural, or only in annotations"""
+    if json.dumps(strip_an(a), sort_keys=True) == json.dumps(strip_an(b), sort_keys=True):
+        return "annotation-differs:" + ",".join(ann_keys_differing(a, b) or ["description"])
+    return kind
 
 
 def compare_docs(exp, real):
@@ -198,7 +294,7 @@ def compare_docs(exp, real):
             tag = "" if len(its) == 1 else " (one of %d resources with this path)" % len(its)
             for fld in ("path_params", "query"):
                 if json.dumps(e[fld], sort_keys=True) != json.dumps(r[fld], sort_keys=True):
-                    out.append(("%s-differ" % fld.replace("_", "-"), "%s %s: expected %s, document %s%s" % (pat, fld, json.dumps(e[fld])[:200], json.dumps(r[fld])[:200], tag)))
+                    out.append((differ("%s-differ" % fld.replace("_", "-"), e[fld], r[fld]), "%s %s: expected %s, document %s%s" % (pat, fld, json.dumps(e[fld])[:200], json.dumps(r[fld])[:200], tag)))
             for m, eo in e["ops"].items():
                 ro = r["ops"].get(m)
                 if ro is None:
@@ -206,8 +302,27 @@ def compare_docs(exp, real):
                     continue
                 for fld in ("query", "headers", "request"):
                     if json.dumps(eo[fld], sort_keys=True) != json.dumps(ro[fld], sort_keys=True):
-                        out.append(("%s-differ" % ("request-body" if fld == "request" else "operation-" + fld),
+                        out.append((differ("%s-differ" % ("request-body" if fld == "request" else "operation-" + fld), eo[fld], ro[fld]),
                                     "%s %s %s: expected %s, document %s" % (m, pat, fld, json.dumps(eo[fld])[:200], json.dumps(ro[fld])[:200])))
+                # annotations of the operation: what is declared must be there (summary falls back to the description,
+                # operationId is synthesized when not declared - C03's subject)
+                if eo.get("operationId") and eo["operationId"] != ro.get("operationId"):
+                    out.append(("operationId-differs", "%s %s: operationId expected %r, document %r" % (m, pat, eo["operationId"], ro.get("operationId"))))
+                want_sum = eo.get("summary") or eo.get("description")
+                if want_sum and want_sum != ro.get("summary"):
+                    out.append(("summary-differs", "%s %s: summary expected %r, document %r" % (m, pat, want_sum, ro.get("summary"))))
+                if (eo.get("description") or "") != (ro.get("description") or ""):
+                    out.append(("operation-description-differs", "%s %s: description expected %r, document %r" % (m, pat, eo.get("description"), ro.get("description"))))
+                if list(eo.get("tags") or []) != list(ro.get("tags") or []):
+                    out.append(("tags-differ", "%s %s: tags expected %r, document %r" % (m, pat, eo.get("tags"), ro.get("tags"))))
+                if eo.get("request") and (eo.get("request_desc") or "") != (ro.get("request_desc") or ""):
+                    out.append(("request-description-differs", "%s %s: request body description expected %r, document %r" % (m, pat, eo.get("request_desc"), ro.get("request_desc"))))
+                for k_, want_d in (eo.get("resp_desc") or {}).items():
+                    if k_ in (ro.get("resp_desc") or {}) and ro["resp_desc"][k_] != want_d:
+                        out.append(("response-description-differs", "%s %s %s: description expected %r, document %r" % (m, pat, k_, want_d, ro["resp_desc"][k_])))
+                for k_, got_d in (ro.get("resp_desc") or {}).items():
+                    if got_d and k_ not in (eo.get("resp_desc") or {}):
+                        out.append(("response-description-undeclared", "%s %s %s: description %r is not declared" % (m, pat, k_, got_d)))
                 # a response of the document is keyed by status; its content by media type.  A declared content with a body
                 # must be there under (status, media); a declared content without a body only requires the status.  Headers
                 # belong to the status (OpenAPI cannot attach them to one media type): every header declared by some
@@ -222,7 +337,7 @@ def compare_docs(exp, real):
                     if key not in rr:
                         out.append(("response-missing", "%s %s: response %s (media %s) is declared but not in the document" % (m, pat, key[0], key[1])))
                     elif json.dumps(er[key], sort_keys=True) != json.dumps(rr[key], sort_keys=True):
-                        out.append(("response-schema-differs", "%s %s %s: expected %s, document %s" % (m, pat, key, json.dumps(er[key])[:200], json.dumps(rr[key])[:200])))
+                        out.append((differ("response-schema-differs", er[key], rr[key]), "%s %s %s: expected %s, document %s" % (m, pat, key, json.dumps(er[key])[:300], json.dumps(rr[key])[:300])))
                 for key in rr:
                     if key not in er:
                         out.append(("response-undeclared", "%s %s: response %s (media %s) is in the document but not declared" % (m, pat, key[0], key[1])))
@@ -247,7 +362,7 @@ def compare_docs(exp, real):
                         elif b is None:
                             out.append(("response-header-missing", "%s %s: header %s of response %s is declared but not in the document" % (m, pat, hn, k)))
                         elif json.dumps(a, sort_keys=True) != json.dumps(list(b), sort_keys=True):
-                            out.append(("response-headers-differ", "%s %s %s: header %s expected %s, document %s" % (m, pat, k, hn, json.dumps(a)[:160], json.dumps(b)[:160])))
+                            out.append((differ("response-headers-differ", a, list(b)), "%s %s %s: header %s expected %s, document %s" % (m, pat, k, hn, json.dumps(a)[:160], json.dumps(b)[:160])))
             if len(its) == 1:
                 for m in r["ops"]:
                     if m not in e["ops"]:
@@ -259,5 +374,5 @@ def compare_docs(exp, real):
         if name not in exp["comps"]:
             out.append(("component-undeclared", "component %s is not a reference declaration of the program" % name))
         elif json.dumps(exp["comps"][name], sort_keys=True) != json.dumps(s, sort_keys=True):
-            out.append(("component-differs", "component %s: expected %s, document %s" % (name, json.dumps(exp["comps"][name])[:200], json.dumps(s)[:200])))
+            out.append((differ("component-differs", exp["comps"][name], s), "component %s: expected %s, document %s" % (name, json.dumps(exp["comps"][name])[:200], json.dumps(s)[:200])))
     return out
